@@ -416,6 +416,124 @@ def rmw_core(R, name, v, dst_seed, src_seed, is_length, taint_fn, is_dst_lhs=Non
         ok = bool(cast.term_refs(cond) & set(incs))
         detail = f"loop condition `{cast.show(cond)}` does not test an advancing offset"
     out.append(res(R, name, f"{name}: unaligned loop advances source and destination offsets by the same amount", ok, detail))
+    out += loop_progress(R, name, v.fn)
+    return out
+
+
+_NARROW = {"uint8_t": 8, "unsigned char": 8, "std::uint8_t": 8, "uint16_t": 16, "unsigned short": 16, "std::uint16_t": 16, "bool": 1,
+           "int8_t": 7, "signed char": 7, "char": 7, "int16_t": 15, "short": 15}
+_MIN_CALLS = ("nunavutChooseMin", "min", "std::min")
+
+
+def _type_bits(n) -> typing.Optional[int]:
+    ty = n.get("type", {})
+    for k in ("qualType", "desugaredQualType"):
+        t = re.sub(r"\b(const|volatile)\b", "", ty.get(k, "")).strip()
+        if t in _NARROW:
+            return _NARROW[t]
+    return None
+
+
+def loop_progress(R, name, fn) -> typing.List[dict]:
+    """The unaligned copy loop ends because every iteration advances the offsets by min(bits to the byte boundary, bits left) >= 1.
+    The minimum has to be taken at full width: a conversion to an 8/16-bit type applied to the `bits left` operand first reduces
+    it modulo 256 (65536), and a remaining length that is a multiple of it gives a step of 0 - the routine never returns."""
+    body = cast.body_of(fn)
+    out: typing.List[dict] = []
+    if body is None:
+        return out
+    decls = {}
+    assigned = set()
+    for n in cast.walk(body):
+        if n.get("kind") == "VarDecl":
+            init = [i for i in (n.get("inner") or []) if i.get("kind") not in ("FullComment",)]
+            decls[n.get("name")] = (n, init[-1] if init else None)
+        elif n.get("kind") in ("BinaryOperator", "CompoundAssignOperator") and n.get("opcode", "").endswith("=") and n.get("opcode") not in ("==", "!=", "<=", ">="):
+            nm = cast.ref_name(n["inner"][0])
+            if nm:
+                assigned.add(nm)
+        elif n.get("kind") == "UnaryOperator" and n.get("opcode") in ("++", "--"):
+            nm = cast.ref_name(n["inner"][0])
+            if nm:
+                assigned.add(nm)
+    hazards: typing.List[str] = []
+    INF = None
+
+    def mn(a, b):
+        return b if a is INF else (a if b is INF else min(a, b))
+
+    def bound(n, depth=0):
+        """an upper bound of the value, or None when nothing bounds it"""
+        if depth > 80:
+            return INF
+        k = n.get("kind")
+        inner = [i for i in (n.get("inner") or []) if i.get("kind") != "CXXDefaultArgExpr"]
+        if k == "IntegerLiteral":
+            return int(n.get("value"))
+        if k in ("ParenExpr", "ExprWithCleanups", "MaterializeTemporaryExpr", "ConstantExpr", "CXXBindTemporaryExpr") and inner:
+            return bound(inner[-1], depth + 1)
+        if k in ("ImplicitCastExpr", "CStyleCastExpr", "CXXStaticCastExpr", "CXXFunctionalCastExpr") and inner:
+            b = bound(inner[-1], depth + 1)
+            w = _type_bits(n)
+            if w is not None and n.get("castKind") in ("IntegralCast", "NoOp", None) or (w is not None and k != "ImplicitCastExpr"):
+                top = (1 << w) - 1
+                if b is INF or b > top:
+                    if n.get("castKind") != "LValueToRValue":
+                        hazards.append(f"`{cast.show(cast.term(inner[-1]))}` converted to a {w}-bit type")
+                    return top
+            return b
+        if k == "DeclRefExpr":
+            nm = n.get("referencedDecl", {}).get("name")
+            if nm in decls and nm not in assigned and decls[nm][1] is not None:
+                return bound(decls[nm][1], depth + 1)
+            return INF
+        if k == "BinaryOperator" and len(inner) == 2:
+            op = n.get("opcode")
+            a, b = bound(inner[0], depth + 1), bound(inner[1], depth + 1)
+            if op == "%":
+                return INF if b is INF else max(b - 1, 0)
+            if op == "-":
+                return a
+            if op in ("+",):
+                return INF if a is INF or b is INF else a + b
+            if op == "&":
+                return mn(a, b)
+            if op in (">>", "/"):
+                return a
+            return INF
+        if k == "ConditionalOperator" and len(inner) == 3:
+            c = cast.strip_casts(inner[0])
+            a, b = bound(inner[1], depth + 1), bound(inner[2], depth + 1)
+            if c.get("kind") == "BinaryOperator" and c.get("opcode") in ("<", "<=", ">", ">="):
+                l, r = (cast.term(x) for x in c["inner"])
+                ta, tb = cast.term(inner[1]), cast.term(inner[2])
+                less = c["opcode"] in ("<", "<=")
+                if (l, r) == (ta, tb) and less or (l, r) == (tb, ta) and not less:
+                    return mn(a, b)          # the smaller of the two
+            return INF if a is INF or b is INF else max(a, b)
+        if k in ("CallExpr",) and inner:
+            cn = cast.callee_name(n) or ""
+            if cn in _MIN_CALLS and len(inner) == 3:
+                return mn(bound(inner[1], depth + 1), bound(inner[2], depth + 1))
+        return INF
+
+    for w in [x for x in cast.walk(body) if x.get("kind") == "WhileStmt"]:
+        steps = []
+        for n in cast.walk(w):
+            if n.get("kind") == "CompoundAssignOperator" and n.get("opcode") == "+=":
+                steps.append(n["inner"][1])
+        seen = set()
+        for st in steps:
+            key = cast.show(cast.term(st))
+            if key in seen:
+                continue
+            seen.add(key)
+            del hazards[:]
+            b = bound(st)
+            ok = not hazards
+            out.append(res(R, name, f"{name}: the loop's step `{key}` is the minimum of its operands at full width (a positive step on every iteration)", ok,
+                           ("; ".join(dict.fromkeys(hazards)) + " before the minimum is taken: the operand is reduced modulo its width, so a remaining length "
+                            "that is a multiple of it yields a step of 0 and the loop never terminates") if not ok else f"step <= {b}"))
     return out
 
 
